@@ -20,7 +20,7 @@ func siteR(kind, name, typ, pkg string) *jg.Site {
 }
 
 var c02ExprNames = []string{"implicit", "this-call", "field-imported", "field-project", "param", "local", "static", "chained",
-	"nested-arg", "new", "new-with-arg-call", "lambda", "this-field", "param-project", "new-generic", "new-qualified", "new-then-call", "new-in-lambda", "new-as-argument", "local-of-declared-type-initialised-with-other-new", "field-of-project-interface-via-on-demand-import", "final-local", "parameter-used-after-being-passed-next-to-a-creation", "parameter-used-after-being-passed-to-a-constructor-next-to-a-creation"}
+	"nested-arg", "new", "new-with-arg-call", "lambda", "this-field", "param-project", "new-generic", "new-qualified", "new-then-call", "new-in-lambda", "new-as-argument", "local-of-declared-type-initialised-with-other-new", "field-of-project-interface-via-on-demand-import", "final-local", "parameter-used-after-being-passed-next-to-a-creation", "parameter-used-after-being-passed-to-a-constructor-next-to-a-creation", "typed-lambda-parameter-named-like-a-field"}
 
 // c02Expr returns (prefix statements needed before, expression fragments).
 func c02Expr(kind string, uniq string) (pre []jg.Stmt, e []jg.Frag) {
@@ -83,6 +83,9 @@ func c02Expr(kind string, uniq string) (pre []jg.Stmt, e []jg.Frag) {
 		e = []jg.Frag{jg.S(siteR("call", "doIt2", "Svc", "app")), jg.T("(new "), jg.S(site("new", "Helper")), jg.T("())")}
 	case "lambda":
 		e = []jg.Frag{jg.T("items."), jg.S(site("call", "forEach")), jg.T("(it -> it."), jg.S(site("call", "run")), jg.T("())")}
+	case "typed-lambda-parameter-named-like-a-field":
+		// `helper` is also a field of type Helper: inside the lambda the explicitly typed parameter is meant
+		e = []jg.Frag{jg.T("items."), jg.S(site("call", "forEach")), jg.T("((Tool helper) -> helper."), jg.S(siteR("call", "use", "Tool", "other")), jg.T("())")}
 	case "this-field":
 		e = []jg.Frag{jg.T("this.repo."), jg.S(site("call", "find")), jg.T("()")}
 	}
